@@ -154,9 +154,15 @@ theorem isZero_sound (e : BV) (hok : ExprOK anno env e) (h : isZero anno e = .ok
     have := mem_integer p1.1.si v hw hint hm
     rw [this, hlb]; exact h0
   · rw [if_neg hi] at hr
-    by_cases hn : (p1.1.name.isSome && p1.1.name == (none : Option Nat)) = true
-    · exfalso
-      cases hnm : p1.1.name <;> simp [hnm] at hn
+    by_cases hn : (p1.1.name.isSome && p1.1.name == some (NameKey.node (.const 0 (wd e)))) = true
+    · -- the name of the constant's own node: then `e` has the constant's value
+      have hn' : p1.1.name = some (NameKey.node (.const 0 (wd e))) := by
+        have : p1.1.name.isSome = true ∧ p1.1.name = some (NameKey.node (.const 0 (wd e))) := by simpa using hn
+        exact this.2
+      have hnm := ((conv_good anno env hctx hnrm e hok [] p1.2 p1.1 h1).1.2 v hv).2
+      rw [hn'] at hnm
+      simp only [NameOK, evalBV] at hnm
+      exact (Option.some.inj hnm).symm
     · rw [if_neg hn] at hr
       obtain ⟨u, _, hr⟩ := bind_ok _ _ _ hr
       have := pure_ok _ _ hr
